@@ -98,6 +98,7 @@ def stdlib_table():
             "dataclasses": {"field": __import__("cgstatic.userclass", fromlist=["x"]).dataclass_field, "dataclass": (lambda *a, **k: (a[0] if a else (lambda c: c)))},
             "operator": {n: getattr(operator, n) for n in ("itemgetter", "attrgetter", "methodcaller", "or_", "and_", "xor", "not_", "add", "sub", "mul", "eq", "ne", "lt", "le", "gt", "ge", "contains", "getitem", "truth", "is_", "is_not", "neg")},
             "queue": {"Queue": MQueue},
+            "io": {"StringIO": MStringIO},
             "weakref": {"WeakKeyDictionary": dict, "WeakValueDictionary": dict, "WeakSet": set},
             "copy": {"copy": __import__("copy").copy, "deepcopy": __import__("copy").deepcopy},
             "math": {n: getattr(__import__("math"), n) for n in ("ceil", "floor", "log2", "log", "sqrt", "inf")},
@@ -135,6 +136,39 @@ def bind_module_constants(tree, env):
                 env[name] = me.ev(st.value)
             except (Unsupported, ModelRaise, Exception):
                 continue
+
+
+class MStringIO(Model):
+    """io.StringIO: an in-memory text buffer."""
+
+    def __init__(self, initial=""):
+        self._buf = [initial] if initial else []
+        self.closed = False
+
+    def write(self, s):
+        if not isinstance(s, str):
+            raise ModelRaise("TypeError", "string argument expected")
+        self._buf.append(s)
+        return len(s)
+
+    def writelines(self, lines):
+        for ln in lines:
+            self.write(ln)
+
+    def getvalue(self):
+        return "".join(self._buf)
+
+    def read(self):
+        return "".join(self._buf)
+
+    def close(self):
+        self.closed = True
+
+    def __enter__(self):
+        return self
+
+    def __exit__(self, *a):
+        return False
 
 
 class MChain(Model):
